@@ -1,0 +1,54 @@
+//go:build verif
+
+// Contracts for govc (contract-based deductive verification, /verif). Comment-only file:
+// it is compiled only under the build tag "verif" and contains no code.
+
+package bfe_proxy
+
+//@ func parseV1PortNumber
+//@   props C46
+//@   nopanic
+//@   modifies nothing
+//@   frame Atoi pure
+
+//@ func (ProtocolVersionAndCommand).IsLocal
+//@   props C46
+//@   arith bv
+//@   nopanic
+//@   modifies nothing
+//@   ensures[local_is_version_2_command_0] result0 <==> pvc == 32
+
+//@ func (ProtocolVersionAndCommand).IsProxy
+//@   props C46
+//@   arith bv
+//@   nopanic
+//@   modifies nothing
+//@   ensures[proxy_is_version_2_command_1] result0 <==> pvc == 33
+
+//@ func (AddressFamilyAndProtocol).IsIPv4
+//@   props C46
+//@   arith bv
+//@   nopanic
+//@   modifies nothing
+//@   ensures result0 <==> 16 <= ap && ap <= 31
+
+//@ func (AddressFamilyAndProtocol).IsIPv6
+//@   props C46
+//@   arith bv
+//@   nopanic
+//@   modifies nothing
+//@   ensures result0 <==> 32 <= ap && ap <= 47
+
+//@ func (AddressFamilyAndProtocol).IsUnix
+//@   props C46
+//@   arith bv
+//@   nopanic
+//@   modifies nothing
+//@   ensures result0 <==> 48 <= ap && ap <= 63
+
+//@ func (*Header).validateLength
+//@   props C46
+//@   nopanic
+//@   requires header != nil
+//@   modifies nothing
+//@   ensures[address_block_must_fit_in_the_announced_length] result0 <==> (16 <= header.TransportProtocol && header.TransportProtocol <= 31 && length >= lengthV4) || (32 <= header.TransportProtocol && header.TransportProtocol <= 47 && length >= lengthV6) || (48 <= header.TransportProtocol && header.TransportProtocol <= 63 && length >= lengthUnix)
